@@ -48,7 +48,7 @@ At2(place, place2, stmts) == At(place, IF place2 = 0 THEN stmts ELSE At(place2, 
 ReadAll == Ret(Arr(<<Ref("x"), Ref("y"), Ref("p"), Ref("q"), Ref("r"), Ref("g")>>))
 Prelude == <<Asg("x", LitI(1)), Asg("y", LitI(2))>>
 
-NTemplates == 18
+NTemplates == 22
 \* template t with names a (parameter), b (local / loop variable) called at a place
 Template(t, a, b) ==
   CASE t = 1  -> <<Func("f", <<a>>, <<Asg(a, Plus(Ref(a), LitI(10))), Ret(Ref(a))>>)>>                         \* parameter assigned
@@ -78,12 +78,25 @@ Template(t, a, b) ==
     [] t = 17 -> <<Func("f", <<a>>, <<Asg("g", Ref(a)), Func("inner", <<b>>, <<Ret(Plus(Ref(b), LitI(1)))>>)>>),
                    Func("f2", <<>>, <<Ret(Call("inner", <<LitI(40)>>))>>)>>
     [] t = 18 -> <<Func("f", <<a>>, <<Func("inner", <<b>>, <<If(BinE(">", Ref(b), LitI(0)), <<Ret(LitI(1))>>)>>), Ret(Call("inner", <<Ref(a)>>))>>)>>
+    \* what one call bound must be gone when the next scope at the same depth opens: another function reading
+    \* the names the first one bound, and a loop after the call assigning one of them
+    [] t = 19 -> <<Func("f", <<a>>, <<Local(b), Asg(b, Plus(Ref(a), LitI(1))), Ret(Ref(b))>>),
+                   Func("f2", <<>>, <<Ret(Arr(<<Ref(a), Ref(b)>>))>>)>>
+    [] t = 20 -> <<Func("f", <<a>>, <<Local(b), Asg(b, Plus(Ref(a), LitI(1))), Ret(Ref(b))>>)>>
+    \* too many arguments, and none at all
+    [] t = 21 -> <<Func("f", <<a>>, <<Ret(Ref(a))>>)>>
+    [] t = 22 -> <<Func("f", <<a>>, <<Ret(LitI(5))>>)>>
 
 \* definitions before (TRUE) or after (FALSE) the code that calls them
 ProgAt(t, a, b, place, place2, before) ==
   LET defs == Template(t, a, b)
       arg  == IF t \in {5, 14} THEN LitI(2) ELSE LitI(3)
       call == IF t = 9 THEN <<<<"expr", Call("f", <<arg>>)>>, Asg("r", LitI(1))>>
+              ELSE IF t = 19 THEN <<Asg("r", Call("f", <<arg>>)), TE(Ref("r")), TE(Call("f2", <<>>))>>
+              ELSE IF t = 20 THEN <<Asg("r", Call("f", <<arg>>)), TE(Ref("r")),
+                                    ForEach("", "z", Arr(<<LitI(1), LitI(2)>>), <<Asg(a, Plus(Ref("z"), LitI(10))), Asg(b, Ref("z"))>>), TE(Ref(a)), TE(Ref(b))>>
+              ELSE IF t = 21 THEN <<Asg("r", Call("f", <<arg, LitI(4)>>)), TE(Ref("r"))>>
+              ELSE IF t = 22 THEN <<Asg("r", Call("f", <<>>)), TE(Ref("r"))>>
               ELSE IF t = 17 THEN <<<<"expr", Call("f", <<arg>>)>>, Asg("r", Call("f2", <<>>)), TE(Ref("r"))>>
               ELSE <<Asg("r", Call("f", <<arg>>)), TE(Ref("r"))>>
       body == Prelude \o At2(place, place2, call) \o <<ReadAll>>
@@ -117,7 +130,7 @@ Spec == Init /\ [][Next]_vars
 \* the corpus is specified except where a value-less call is used as a value
 Specified == row.done => \A i \in 1..2 : Tag(row.runs[i].exp.out) # "DIVERGE"
 \* functions whose template must fail do fail, the others do not
-Errors == row.done => ((row.t \in {10, 11}) <=> IsErr(row.runs[1].exp.out))
+Errors == row.done => ((row.t \in {10, 11, 21, 22}) <=> IsErr(row.runs[1].exp.out))
 
 Export == row.done => PrintT(<<"ROW", ToJson(row)>>)
 =============================================================================
